@@ -746,15 +746,15 @@ func (f *Frame) rangeLoop(st *State, s *ast.RangeStmt, label string) []Outcome {
 			func(h *State) map[string]Term { return map[string]Term{"kvcSeen": seen} },
 			func(h *State) Term {
 				k := Term{"k!", ks}
-				return Forall([]Term{k}, Imp(Select(seenRow(h), k), Select(Select(vc.mapDom(h, ks), m), k)), Select(seenRow(h), k))
+				return Forall([]Term{k}, Imp(Select(seenRow(h), k), vc.mapHas(h, m, k)), Select(seenRow(h), k))
 			},
 			func(h *State) Term {
 				k := vc.fresh("rangekey", ks)
 				h.env[curKey] = k
 				// the loop continues iff some key is left; k is an arbitrary such key
-				pending := And(Select(Select(vc.mapDom(h, ks), m), k), Not(Select(seenRow(h), k)))
+				pending := And(vc.mapHas(h, m, k), Not(Select(seenRow(h), k)))
 				kk := Term{"k!", ks}
-				none := Forall([]Term{kk}, Imp(Select(Select(vc.mapDom(h, ks), m), kk), Select(seenRow(h), kk)))
+				none := Forall([]Term{kk}, Imp(vc.mapHas(h, m, kk), Select(seenRow(h), kk)))
 				vc.assume(h, Or(pending, none))
 				return pending
 			},
